@@ -39,7 +39,9 @@ def ops_strategy():
     maxs = st.tuples(st.just("max_streams"), st.sampled_from(["bidi", "uni"]), st.sampled_from(["same", "+1", "+1", "+1", "+2", "-1", "0"]))
     stop = st.tuples(st.just("stop_sending"), st.integers(0, 3))
     simple = st.sampled_from([("ack_all",), ("ack_some", 0b1011), ("ack_some", 0b0101), ("lose",), ("lose",), ("timer",)])
-    return st.lists(st.one_of(write, write, write, write, reset, maxd, maxsd, maxsd, maxs, maxs, stop, simple, simple, simple), min_size=4, max_size=18)
+    # several streams written before the next packet is built: they share the connection credit inside one packet
+    burst = st.tuples(st.just("burst"), st.lists(st.tuples(st.sampled_from(["new-bidi", "new-uni", 0, 1, 2]), st.sampled_from(["lim-1", "lim", "lim", "lim+1", "1", "5000"]), st.booleans()), min_size=2, max_size=4))
+    return st.lists(st.one_of(write, write, write, burst, burst, reset, maxd, maxsd, maxsd, maxs, maxs, stop, simple, simple, simple), min_size=4, max_size=18)
 
 
 def run_history(ctx, case):
@@ -166,7 +168,30 @@ def run_history(ctx, case):
                 break
             kind = op[0]
             cls.add("op:" + kind)
-            if kind == "write":
+            if kind == "burst":
+                lim_conn = max(0, L_conn - sum(written.values()))
+                for ref, size, fin in op[1]:
+                    if ref in ("new-bidi", "new-uni") or not streams:
+                        sid = tk.sut.get_next_available_stream_id(is_unidirectional=(ref == "new-uni"))
+                        if sid in streams:
+                            continue  # not yet used: the library hands the same id out again
+                        streams.append(sid)
+                    else:
+                        sid = streams[ref % len(streams)]
+                    if sid in fin_written or sid in reset_written:
+                        continue
+                    # each write is sized against the credit that was left BEFORE the burst
+                    lim = max(0, min(stream_limit(sid) - written.get(sid, 0), lim_conn))
+                    n = min({"lim-1": max(0, lim - 1), "lim": lim, "lim+1": lim + 1, "1": 1, "5000": 5000}[size], 60000)
+                    if n > lim or sum(written.values()) + n > L_conn:
+                        blocked[0] = True
+                        cls.add("write-beyond-limit")
+                    sut_call("send_stream_data", tk.sut.send_stream_data, sid, bytes((sid + written.get(sid, 0) + i) & 0xFF for i in range(n)), fin)
+                    written[sid] = written.get(sid, 0) + n
+                    if fin:
+                        fin_written.add(sid)
+                cls.add("burst-of-streams")
+            elif kind == "write":
                 _, ref, size, fin = op
                 if ref in ("new-bidi", "new-uni") or not streams:
                     sid = tk.sut.get_next_available_stream_id(is_unidirectional=(ref == "new-uni"))
